@@ -21,4 +21,42 @@ theorem format_parse_never_panics (O : Oracles) (f : Format) (s : List Nat) (hwf
 theorem from_format_str_never_panics (O : Oracles) (text fmt : List Nat) : fromFormatStr O text fmt ≠ .panic :=
   Hifi.C13Format.from_format_str_never_panics O text fmt
 
+/-- `Format::parse` of well-formed text (numeric class of formats, any field values but hour 24) is
+    `Epoch::maybe_from_gregorian` of the fields -/
+theorem format_parse_is_from_gregorian (O : Oracles) (f : Format) (hc : numClass f = true) (y mo d h mi s ns : Int)
+    (hy : 0 ≤ y ∧ y ≤ 9999) (hmo : 0 ≤ mo ∧ mo < 100) (hd : 0 ≤ d ∧ d < 100) (hh : 0 ≤ h ∧ h < 100)
+    (hmi : 0 ≤ mi ∧ mi < 100) (hs : 0 ≤ s ∧ s < 100) (hns : 0 ≤ ns ∧ ns < 1000000000) (h24 : h ≠ 24) :
+    formatParse O f (Hifi.C13Format.printed f y mo d h mi s ns) =
+      match Cal.maybeFromGregorian y mo d h mi s ns TS.UTC with
+      | .ok dur => .ok ⟨dur, TS.UTC⟩
+      | .err => .err
+      | .panic => .panic :=
+  Hifi.C13Format.format_parse_is_from_gregorian O f hc y mo d h mi s ns hy hmo hd hh hmi hs hns h24
+
+/-- rejection through `Format::parse`, universal over the numeric class; partial on D10 -/
+theorem format_parse_rejects_out_of_range_partial (O : Oracles) (f : Format) (hc : numClass f = true)
+    (y mo d h mi s ns : Int)
+    (hy : 0 ≤ y ∧ y ≤ 9999) (hmo : 0 ≤ mo ∧ mo < 100) (hd : 0 ≤ d ∧ d < 100) (hh : 0 ≤ h ∧ h < 100)
+    (hmi : 0 ≤ mi ∧ mi < 100) (hs : 0 ≤ s ∧ s < 100) (hns : 0 ≤ ns ∧ ns < 1000000000)
+    (hrej : Spec.mustReject Spec.iersLeapDates ⟨y, mo, d⟩ h mi s ns = true ∨ h = 24)
+    (hD10 : Cal.d10class y mo d = false) :
+    formatParse O f (Hifi.C13Format.printed f y mo d h mi s ns) = .err :=
+  Hifi.C13Format.format_parse_rejects_out_of_range_partial O f hc y mo d h mi s ns hy hmo hd hh hmi hs hns hrej hD10
+
+/-- the D10 hypothesis cannot be dropped -/
+theorem format_parse_d10_counterexample :
+    Spec.mustReject Spec.iersLeapDates ⟨2024, 2, 30⟩ 0 0 0 0 = true ∧
+    formatParse Hifi.C13Format.O0 (Hifi.C13Format.fmtOf "%Y-%m-%d %H:%M:%S.%f")
+      (Hifi.C13Format.printed (Hifi.C13Format.fmtOf "%Y-%m-%d %H:%M:%S.%f") 2024 2 30 0 0 0 0) ≠ .err :=
+  ⟨Hifi.C13Format.format_parse_d10_counterexample.2.1, Hifi.C13Format.format_parse_d10_counterexample.2.2.2.1⟩
+
+/-- acceptance through `Format::parse`: the specified instant -/
+theorem format_parse_accepts (O : Oracles) (f : Format) (hc : numClass f = true) (y mo d h mi s ns : Int)
+    (hy : 0 ≤ y ∧ y ≤ 9999)
+    (hacc : Spec.mustAccept Spec.iersLeapDates ⟨y, mo, d⟩ h mi s ns = true) :
+    ∃ e, formatParse O f (Hifi.C13Format.printed f y mo d h mi s ns) = .ok e ∧ e.ts = TS.UTC ∧ e.dur.Canon ∧
+      e.dur.val = Spec.dayNumber ⟨y, mo, d⟩ * 86400000000000 + h * 3600000000000 + mi * 60000000000 + s * 1000000000 + ns
+        - (if s = 60 then 1000000000 else 0) - Spec.refOffsetNs TS.UTC.name :=
+  Hifi.C13Format.format_parse_accepts O f hc y mo d h mi s ns hy hacc
+
 end Hifi.C13F
